@@ -250,13 +250,48 @@ def fam_markov(rng):
     return thunk
 
 
+def fam_contraction(rng):
+    """direct `Contraction(red, bin, vars, *terms)` with >= 3 operands, one operand OBJECT repeated 2-3 times
+    (adjacent or not), reduced variables shared / unshared between the repeated and the other operands."""
+    semis = [(ops.add, ops.mul, "grid+"), (ops.max, ops.add, "int"), (ops.min, ops.add, "int"),
+             (ops.logaddexp, ops.add, "int"), (ops.max, ops.mul, "grid+"), (ops.or_, ops.and_, "bool")]
+
+    def thunk():
+        red, bin_, kind = rng.choice(semis)
+        sizes = OrderedDict(i=Bint[rng.choice([2, 3])], j=Bint[2], k=Bint[rng.choice([1, 2])])
+
+        def leaf():
+            names = [n for n in sizes if rng.random() < 0.6] or ["i"]
+            ins = OrderedDict((n, sizes[n]) for n in names)
+            shape = tuple(d.dtype for d in ins.values())
+            n = int(np.prod(shape))
+            if kind == "bool":
+                return Tensor(np.array([rng.choice([0, 1]) for _ in range(n)]).reshape(shape), ins, 2)
+            vals = [float(rng.choice([0, 1, 1, 2, 3] if kind == "grid+" else [-2, -1, 0, 1, 2, 3])) for _ in range(n)]
+            return Tensor(np.array(vals).reshape(shape), ins)
+        x, y, z = leaf(), leaf(), leaf()
+        shapes = [(x, x, y), (x, y, x), (y, x, x), (x, x, x), (x, x, y, z), (x, y, y, x), (x, y, z)]
+        terms = rng.choice(shapes)
+        present = sorted(set().union(*[t.inputs for t in terms]))
+        rv = [n for n in present if rng.random() < 0.6] or [present[0]]
+        rvars = frozenset(Variable(n, sizes[n]) for n in rv)
+        if rng.random() < 0.5:
+            return Contraction(red, bin_, rvars, *terms)
+        acc = terms[0]
+        for t in terms[1:]:
+            acc = bin_(acc, t)
+        return acc.reduce(red, rvars)
+    return thunk
+
+
 FAMILIES = OrderedDict([
+    ("contraction", fam_contraction),
     ("delta", fam_delta), ("independent", fam_independent), ("align", fam_align), ("tuple", fam_tuple),
     ("finitary", fam_finitary), ("lambda", fam_lambda), ("constant", fam_constant), ("arith", fam_arith),
     ("gaussian", fam_gaussian), ("markov", fam_markov),
 ])
 
-EXTRA_MODES = ["eager", "lazy>eager", "reflect>eager", "reflect>normalize", "lazy", "reflect>moment_matching",
+EXTRA_MODES = ["eager", "normalize>eager", "normalize", "lazy>eager", "reflect>eager", "reflect>normalize", "lazy", "reflect>moment_matching",
                "reflect>optimizer", "reflect>sequential"]
 
 _INTERP = {"eager": FI.eager, "lazy": FI.lazy, "reflect": FI.reflect, "normalize": FI.normalize,
